@@ -33,7 +33,9 @@ def confs():
     from beartype import BeartypeConf
     return {
         'A': BeartypeConf(violation_type=ExcA), 'B': BeartypeConf(violation_type=ExcB), 'A2': BeartypeConf(violation_type=ExcA),
-        'D': BeartypeConf(), 'S': BeartypeConf(violation_type=ExcA, claw_skip_package_names=('a.b',)), 'bad': 'not-a-conf',
+        'D': BeartypeConf(), 'S': BeartypeConf(violation_type=ExcA, claw_skip_package_names=('a.b',)),
+        # a skip list naming a child before its parent, and a sibling
+        'S2': BeartypeConf(violation_type=ExcA, claw_skip_package_names=('b.a', 'b', 'c')), 'bad': 'not-a-conf',
     }
 
 
@@ -44,7 +46,7 @@ def conf_id(c):
     vt = c.violation_type
     key = 'A' if vt is ExcA else 'B' if vt is ExcB else 'D'
     if c.claw_skip_package_names:
-        key = 'S'
+        key = 'S' if c.claw_skip_package_names == ('a.b',) else 'S2'
     return key
 
 
@@ -126,6 +128,8 @@ class Model:
     def _skip(self, cname):
         if cname == 'S':
             self.black.add('a.b')
+        if cname == 'S2':
+            self.black.update(('b.a', 'b', 'c'))
 
 
 def _valid_name(n):
@@ -139,10 +143,12 @@ def dump():
     """Canonical, address-free dump of the real registry."""
     from beartype.claw._clawstate import claw_state
 
-    def trie(t):
+    def trie(t, path=()):
+        if id(t) in path:
+            return ('<cycle>', ())           # a trie that contains itself (seen when the shared leaf sentinel is mutated)
         out = {}
         for k, v in t.items():
-            out[k] = trie(v) if isinstance(v, dict) else repr(v)
+            out[k] = trie(v, path + (id(t),)) if isinstance(v, dict) else repr(v)
         c = getattr(t, 'conf_if_hooked', '-')
         return (conf_id(c) if c != '-' and c is not None else c, tuple(sorted(out.items())))
     hook = claw_state.beartype_path_hook
@@ -189,6 +195,8 @@ def snapshot():
 
 def restore(s):
     from beartype.claw._clawstate import claw_state
+    from beartype.claw._package.clawpkgtrie import PackagesTrieBlacklisted
+    dict.clear(PackagesTrieBlacklisted)        # the shared leaf sentinel must be empty (an operation may have mutated it)
     claw_state.packages_trie_whitelist = s['copy'](s['white'])
     claw_state.packages_trie_blacklist = s['copy'](s['black'])
     claw_state.beartype_path_hook = s['hook']
@@ -239,13 +247,14 @@ def real_apply(op, C, cms):
 
 def alphabet(tier):
     ops = []
-    for c in ('A', 'B', 'S', 'bad'):
+    for c in ('A', 'B', 'S', 'S2', 'bad'):
         ops.append(('all', c))
     names = ['a', 'a.b', 'a.b.c', 'b', 'beartype.x', 'BL.x', '']
     for n in names:
         for c in ('A', 'B') + (('A2',) if n == 'a.b' else ()):
             ops.append(('package', n, c))
     ops.append(('package', 'a', 'S'))
+    ops.append(('package', 'a', 'S2'))
     ops.append(('package', 'a', 'bad'))
     ops.append(('packages', ('a', 'b'), 'A'))
     ops.append(('packages', ('b', 'a'), 'B'))
